@@ -1941,7 +1941,10 @@ def render_defs(schema: Dict[str, Any], descriptions: bool, rng: Optional[random
             out.append(head + f"scalar {t['name']}")
         elif k == "enum":
             vals = [D(None) + v + (dep if v in t.get("deprecated_values", []) else "") for v in t["values"]]
-            out.append(head + f"enum {t['name']} {{\n  " + "\n  ".join(vals) + "\n}")
+            cut = rng.randint(1, len(vals) - 1) if (rng is not None and len(vals) > 1 and rng.random() < 0.2) else len(vals)
+            out.append(head + f"enum {t['name']} {{\n  " + "\n  ".join(vals[:cut]) + "\n}")
+            if cut < len(vals):
+                out.append(f"extend enum {t['name']} {{\n  " + "\n  ".join(vals[cut:]) + "\n}")
         elif k == "union":
             out.append(head + f"union {t['name']} = " + " | ".join(t["members"]))
         elif k == "input":
@@ -2018,9 +2021,12 @@ def gen_oracle_case(rng: random.Random, idx: int, focus: Optional[str] = None) -
     decorate_schema(schema, rng, p_default, p_dep, p_desc=rng.choice([0.0, 0.3, 0.8]))
     if rng.random() < 0.3:
         schema["directives"] = ["directive @tag(name: String = \"x\", level: Int) on FIELD | QUERY | FRAGMENT_SPREAD"]
-    defs = render_defs(schema, True)
+    # the single file (and the endpoint's schema) carries `extend type / input / enum` nodes in 40% of the cases: the same
+    # cut pattern with and without descriptions (two generators with one seed: descriptions draw nothing)
+    ext_seed = rng.random() if rng.random() < 0.4 else None
+    defs = render_defs(schema, True, random.Random(ext_seed) if ext_seed is not None else None)
     sdl = "\n\n".join(defs) + "\n"
-    sdl_plain = "\n\n".join(render_defs(schema, False)) + "\n"
+    sdl_plain = "\n\n".join(render_defs(schema, False, random.Random(ext_seed) if ext_seed is not None else None)) + "\n"
     try:
         built = build_schema(sdl)
         build_schema(sdl_plain)
@@ -2321,6 +2327,10 @@ def run_oracle(ctx: Ctx, res: Result, n: int, label: str = "oracle", focus: Opti
         res.seen(["packages", c["sdl"], c["queries"], sorted(c["split"])], nontrivial=True)
         res.count("oracle:cases")
         res.count("oracle:in-F1-region" if trig_default_lost(defs) else "oracle:outside-F1-region")
+        if "\nextend " in c["sdl"]:
+            res.count("oracle:single-file-with-extension-nodes")
+        if any(t.startswith("extend ") or "\nextend " in t for t in c["split"].values()):
+            res.count("oracle:split-with-extension-nodes")
         res.count("oracle:split-files", len([k for k in c["split"] if PurePosixPath(k).suffix in EXTS_OK]))
         for s in srcs:
             res.count("oracle:generated:" + s if s in obs["files"] else "oracle:refused:" + s + ":" + obs["errors"].get(s, {}).get("cls", "?"))
@@ -2354,7 +2364,7 @@ def check_split_schemas(ctx: Ctx, res: Result, n: int) -> None:
         for i in range(n):
             schema = schema_gen.gen_schema(rng, size=rng.choice([1, 2, 3]), subscription=rng.random() < 0.2, custom_root_names=0.3)
             decorate_schema(schema, rng, rng.choice([0.0, 0.4]), rng.choice([0.0, 0.1]), rng.choice([0.0, 0.5, 1.0]))
-            single = "\n\n".join(render_defs(schema, True)) + "\n"
+            single = "\n\n".join(render_defs(schema, True, rng if rng.random() < 0.4 else None)) + "\n"  # 40%: extension nodes in the single file too
             files = split_defs(render_defs(schema, True, rng), rng)
             root = base / f"s{i}"
             (root / "tree").mkdir(parents=True)
